@@ -8,12 +8,14 @@ GEN = ['Series', 'Histogram']
 LEAN_TARGETS = ['OtelVerif.Props.C08']
 THEOREMS = ['Otel.C08.' + t for t in (
     'bytesLt_irrefl', 'bytesLt_trans', 'bytesLt_trichotomy',
-    'canon_sorted', 'canon_lookup', 'canon_eq_iff', 'canon_perm', 'canon_dedup', 'keyOf_eq_canon_filter', 'keyOf_lookup',
-    'same_key_iff', 'hash_of_equal_sets_equal', 'filter_looks_up_by_value',
-    'same_series_iff', 'overflow_folds_into_one_series',
-    'table_inv_record', 'table_inv_mergeEntry', 'series_le_limit',
-    'total_record', 'total_mergeEntry', 'total_mergeTables', 'overflow_conserves_total', 'overflow_conserves_total_counter',
-    'limits_are_kept', 'default_limit', 'overflow_key')]
+    'canon_sorted', 'canon_lookup', 'canon_eq_iff', 'canon_perm', 'lastWrite_dedupLast', 'canon_dedup', 'dedupLast_nodup',
+    'filter_looks_up_by_value', 'keyOf_eq_canon_filter', 'lastWrite_filter', 'keyOf_lookup', 'same_key_iff',
+    'hash_of_equal_sets_equal',
+    'seriesOf_self', 'overflow_folds_into_one_series', 'same_series_iff',
+    'series_le_limit', 'table_inv_record', 'table_inv_mergeEntry', 'limits_are_kept', 'default_limit', 'overflow_key',
+    'total_record', 'total_mergeEntry', 'total_mergeTables', 'overflow_conserves_total', 'overflow_conserves_total_counter')] + [
+    'Otel.Series.sinv_collect', 'Otel.Series.run_totals', 'Otel.Series.run_series_le_limit', 'Otel.Series.collect_spec',
+    'Otel.Attr.sorted_ext', 'Otel.Attr.insertKV_sorted', 'Otel.Attr.lookup_insertKV']
 HARNESSES = [Harness('s_c08', ['harness/s_c08.cc'], sdk_srcs=sdk_sources('common', 'resource', 'version', 'metrics'),
                      includes=SDK_INCLUDES)]
 H = 's_c08'
